@@ -71,6 +71,54 @@ CHECKS["C02"] = ("sweep (worker subprocesses)", "exploration",
     "The lattices are chosen from the branch structure of the decoders; values between lattice points and longer random garbage are not enumerated.",
     "DESIGN.md §C02")
 
+CHECKS["C11"] = ("bfs / history enumeration", "model_checking",
+    "exhaustive enumeration of draw/erase/response histories on the real KittyImageHandler against an independent kitty-graphics parser and reference terminal image store",
+    "All histories of depth 3 (no de-duplication; 1.19 M) and, de-duplicated by (transmitted ids, reference terminal state), depth 4 (6) over a 106-operation alphabet (7 images incl. 1x1, cropped/strided view, equal pixels in another allocation, "
+    "empty, exactly-4096-byte payload, three-chunk payload; 4 positions incl. the origin and (65535,65535); draw, erase(Some), erase(None), OK and error responses for known and unknown ids, unrelated events) are executed on the real handler, "
+    "plus the .quiet() handler, 1 024 single-pixel images over every channel value and thousands of sizes across the chunk boundaries. The emitted bytes are parsed by an independent APC/kitty parser and fed to a reference terminal store; "
+    "oracle: valid commands, s/v = image size, f=32, chunks <= 4096 and multiples of 4 with correct m flags, payload base64-decodes to the exact RGBA pixels row-major, at most one transmission per content (plus one per evicting error), "
+    "every put names a transmitted image, erase(img, Some(pos)) removes exactly the placement draw(img,pos) created.",
+    "Trusts the reading of the kitty graphics protocol in model/kitty.rs (p=0 = unspecified); id hash collisions are out of reach of enumeration.",
+    "DESIGN.md §C11")
+CHECKS["C12"] = ("sweep", "exploration",
+    "exhaustive small-image sweep decoded by an independent sixel interpreter",
+    "All colourings of 6x1 and 6x2 images over 3 colours and 6x3 over 2 (thorough: 6x2 over 4, 6x4, 12x1, 12x2), all constant-column single-band images up to width 12 (16), heights {6,7,11,12,13} x widths 1..5, >256 colour gradients, "
+    "alpha {0,128,255} over three backgrounds, 1 260 crops, every channel value, repeated draws on shared handlers: 0.82 M (51.8 M) images. The emitted bytes are decoded by an independent sixel interpreter (raster attributes, colour registers, "
+    "repeat, $, -) into an unpainted-initialised raster; oracle: one well-formed sequence, declared size = width x 6*floor(h/6), every pixel painted exactly inside the raster, only defined registers (<= 256), pixel-exact equality at 0-100 "
+    "resolution when the colours fit and the image is not subsampled, second draw byte-identical.",
+    "Trusts the sixel reading of model/sixel.rs; partial alpha is only checked to lie between pixel and background; images above the subsampling threshold are checked for structure only.",
+    "DESIGN.md §C12")
+CHECKS["C14"] = ("bfs + sweep", "model_checking",
+    "closed BFS over the encoder's carry state + exhaustive partition / reader-schedule enumeration against an RFC 4648 reference codec",
+    "Encoder: the carry-state graph (65 793 states x 256 bytes) is closed on the real encoder; all 2^24 three-byte groups and all tails; every partition into writes for n <= 12 (18), with flushes, one-byte sinks and empty writes, "
+    "lengths 0..=200 under all <= 2-cut partitions. Decoder: lengths 0..=200 x 12 cyclic reader schedules x 12 destination-buffer patterns, EVERY composition of the text into reads for <= 16 (24) characters, all 2^24 groups; "
+    "every length not divisible by four must error; ~1.2 M garbage inputs (all two-byte, 20^4 four-character, 64-byte buffer boundary sweeps) must not panic. Reference: RFC 4648 codec checked against the RFC vectors and CPython.",
+    "Readers/writers that fail are out of scope; invalid characters only need to avoid a panic (statement silent on their decoding).",
+    "DESIGN.md §C14")
+CHECKS["C15"] = ("product-automaton bfs", "model_checking",
+    "product BFS (real DFA state x Brzozowski derivative vector) to a fixpoint for every combinator expression up to the node bound",
+    "Every expression with <= 6 (7) nodes over atoms {a, b, [ab], \"ab\", empty, nothing} and operators sequence/choice (2-3 operands)/optional/some/many (124 k; thorough 1.29 M), an edge-arity space (empty and one-element lists) and a deep {a,b} space are built "
+    "through the public NFA API and compiled; the real DFA is stepped on all 256 bytes in every reachable product pair with the derivative of the expression; reaching the fixpoint decides language equality for ALL strings. "
+    "Checked in every pair: accepting <=> nullable, dead transition <=> empty derivative, terminal => no byte extends, and for tagged choices tags == alternatives whose derivative is nullable. The production decoder automata (hook H1) are "
+    "checked the same way against a byte-level transcription of their grammars. Both reference matchers are cross-checked against CPython re.fullmatch.",
+    "Expressions beyond the node bounds and other atoms are not covered; production grammars are compared with a transcription of decoder.rs.",
+    "DESIGN.md §C15")
+CHECKS["C18"] = ("bfs + sweep", "model_checking",
+    "explicit-state BFS over registration histories of the real KeyMap against a dictionary model; exhaustive matcher and parser sweeps",
+    "BFS over histories of register(chord of length 1-3 over {a,b,ctrl+c}) to depth 3 (4) and over {a,b} to depth 4 (6) with an observational key (for_each listing + lookup of every chord up to length 4): in every state all lookups, "
+    "the enumeration and register's return value are compared with a last-writer-wins prefix-free dictionary. register_override over all ordered pairs of 1 435 (2 729) small maps. KeyMapHandler/lookup_state on every prefix-free set of up to 3 (4) chords x "
+    "every key string up to length 5 (6) over {a,b,c,x}: fires exactly at the last key from idle, an unbound key never blocks the next chord, every firing is sound. Parsers: all strings of <= 3 (5) tokens over a 24-token alphabet, f+1..30 digits, "
+    "every KeyName x 2^9 modifier sets printed and re-parsed.",
+    "What happens after a partially typed chord is abandoned by a key that itself begins a chord is not demanded (statement silent); chords longer than 3 as registrations are not explored.",
+    "DESIGN.md §C18")
+CHECKS["C20"] = ("sweep", "exploration",
+    "complete sweep of all 2^24 colours through the real encoder against brute force over the xterm palette",
+    "All 2^24 opaque colours are encoded with the real TTYEncoder as Face.fg under EightBit, Gray and TrueColor (quick; bg and underline colour on the complete 65^3 lattice), and at all five call sites (Face.fg/bg, FaceModify.fg/bg/underline_color) in thorough; "
+    "the emitted SGR is parsed independently. EightBit: index in 16..=255 whose distance (library's LinColor metric, palette from its sRGB xterm definition) is within 1e-5 of the brute-force minimum over all 240 entries; Gray: nearest of the four levels by luma and monotone over the sorted sweep; "
+    "TrueColor: exact r;g;b.",
+    "Trusts LinColor::distance / From<RGBA> as the metric the statement refers to; ties within 1e-5 (table rounding) are not judged.",
+    "DESIGN.md §C20")
+
 PENDING = {}
 ALL = ["C%02d" % i for i in range(1, 21)]
 
